@@ -20,6 +20,16 @@ package namesys
 //@   ensures[capped] ns.maxCacheTTL != nil && ttlCap(ns) > 0 && ttl > ttlCap(ns) ==> result == ttlCap(ns)
 //@   ensures[otherwise_same] !(ns.maxCacheTTL != nil && ttlCap(ns) > 0 && ttl > ttlCap(ns)) ==> result == ttl
 
+// recursion worker of resolveAsync (free variables: resCh, outCh, options, depth, r, p, ctx): the
+// TTL of every result of a sub-resolution is folded with the TTL of the hop that started it
+//@ func resolveAsync$1
+//@   prop C29
+//@   arith int
+//@   modifies all
+//@   site[sub_result_ttl_is_folded] call:emitResult#3 : called("call:minNonZeroTTL#0") && arg2.TTL == res("call:minNonZeroTTL#0", 0)
+//@   site[folds_parent_and_sub_ttl] call:minNonZeroTTL : arg0 == parentTTL
+//@   site[recursion_error_at_depth_one] call:emitResult#2 : depth == 1 && arg2.Err == ErrResolveRecursion
+
 // ---- sequence numbers -----------------------------------------------------------
 //@ func (*IPNSPublisher).GetPublished
 //@   assumed
@@ -43,9 +53,8 @@ package namesys
 //@   site[first_explicit] call:NewRecord : res("call:GetPublished#0") == nil && res("call:ProcessPublishOptions#0").Sequence != nil ==> arg2 == deref(res("call:ProcessPublishOptions#0").Sequence) && arg2 != 0
 //@   site[explicit_greater] call:NewRecord : res("call:GetPublished#0") != nil && res("call:ProcessPublishOptions#0").Sequence != nil ==> arg2 == deref(res("call:ProcessPublishOptions#0").Sequence) && arg2 > res("call:Sequence#0")
 //@   site[never_decreases] call:NewRecord : res("call:GetPublished#0") != nil ==> arg2 >= res("call:Sequence#0")
-//@   site[increases_on_change] call:NewRecord : res("call:GetPublished#0") != nil && res("call:ProcessPublishOptions#0").Sequence == nil && res("invoke:String#0") != res("invoke:String#1") ==> arg2 > res("call:Sequence#0")
-//@   site[same_value_same_seq] call:NewRecord : res("call:GetPublished#0") != nil && res("call:ProcessPublishOptions#0").Sequence == nil && res("invoke:String#0") == res("invoke:String#1") ==> arg2 == res("call:Sequence#0")
-//@   site[value_compared] invoke:String#0 : arg0 == value
+//@   site[increases_on_change] call:NewRecord : res("call:GetPublished#0") != nil && res("call:ProcessPublishOptions#0").Sequence == nil && pathString(value) != pathString(res("call:Value#0", 0)) ==> arg2 > res("call:Sequence#0")
+//@   site[same_value_same_seq] call:NewRecord : res("call:GetPublished#0") != nil && res("call:ProcessPublishOptions#0").Sequence == nil && pathString(value) == pathString(res("call:Value#0", 0)) ==> arg2 == res("call:Sequence#0")
 //@   site[record_value] call:NewRecord : arg1 == value
 
 // ---- resolver cache key consistency -------------------------------------------------
